@@ -48,6 +48,24 @@ c.trace("both-lookups-answered",
         else "returned an identity without querying users and groups")
 c.returns(('tuple', 'str', 'opaque'))
 
+
+def t_groups_are_the_answer(ev, outcome, exc, path, I):
+    """The group list that accompanies the identity is the one the group look-up answered: the
+    value returned is what `.get('groups')` of the decoded second answer gave - never a made-up
+    default when the answer could not be decoded (that must fail the authentication)."""
+    if outcome != 'return':
+        return True
+    res = I.ghost_globals.get('__result__')
+    ext = [e for e in ev if e[0] == 'external']
+    gets = [e for e in ext if e[1].endswith(".get()") and 'json()' in e[1]]
+    groups = res[1] if isinstance(res, tuple) and len(res) == 2 else None
+    if not gets or groups is not gets[-1][4]:
+        return "the groups returned with the identity are not the group look-up's decoded answer"
+    return True
+
+
+c.trace("groups-are-what-the-group-lookup-answered", t_groups_are_the_answer)
+
 # ---- the session's authenticate(): plugins in order, certificate CN only if no plugin is enabled
 REQUEST = ('obj', 'kmip.core.messages.messages.RequestMessage',
            {'request_header': ('obj', 'kmip.core.messages.messages.RequestHeader',
